@@ -1,5 +1,6 @@
 import Babylon.Core.Proto
 import Babylon.Log.Entry
+import Babylon.Log.Appender
 /-! Line-protocol driver for the logging model (property C20), part A: `LogStreamBuffer` /
 `LogEntry` (same protocol as harness/c20.cpp, mode `entry`).
 
@@ -10,10 +11,22 @@ import Babylon.Log.Entry
   sync      pubsync()                                  -> same
   end       end(); append_to_iovec                     -> `size S n I iov p:len … hash H`
   discard   AsyncFileAppender::discard(entry)          -> `freed p p …`
+
+Part B: replay of a recorded run of the real `AsyncFileAppender` through the abstract model's step
+function (`Babylon.Log.App.step`); harness/c20.cpp `appender` prints the same lines from what it
+observed (writev calls, deallocate calls, check_and_get_file_descriptor calls).
+
+  app init C                     queue capacity C                         -> ok
+  app w TID FILE SIZE p:len …    write(): reserve + publish               -> ok
+  app close                      close(): reserve + publish of the marker -> ok
+  app round N1 N2 fd …           one keep_writing iteration               -> `exited=b flushes=k | f=F fd=D calls=a,b iov=p:len,… freed=p,… | …`
+  app end                                                                 -> `exited=b queue=n processed=n freed=n`
+A step the model does not enable prints `REJECT`.
 -/
 open Babylon.Core Babylon.Log
 
 structure St where
+  app : Option App.State := none
   s : Stream Nat := Stream.begin 0 0
   ps : Nat := 0
   entryNo : Nat := 0      -- entries begun since `ps`
@@ -34,8 +47,64 @@ def status (s : Stream Nat) : String :=
 def showIov (iov : Iov) : String :=
   String.join (iov.map (fun e => s!" {e.1}:{e.2}"))
 
+def parsePair (w : String) : Option (Nat × Nat) :=
+  match w.splitOn ":" with
+  | [a, b] => do pure (← a.toNat?, ← b.toNat?)
+  | _ => none
+
+def commaNats (l : List Nat) : String := ",".intercalate (l.map toString)
+
+def showFlush (x : App.Flush) : String :=
+  s!"f={x.file} fd={x.fd} calls={commaNats (x.calls.map List.length)} iov=" ++
+    ",".intercalate (x.calls.flatten.map (fun e => s!"{e.1}:{e.2}")) ++
+    " freed=" ++ commaNats (x.calls.flatten.map Prod.fst)
+
+def appStep (st : St) (ws : List String) : St × String :=
+  match ws with
+  | ["init", c] =>
+    match c.toNat? with
+    | some c => ({ st with app := some (App.init c) }, "ok")
+    | none => (st, "bad-op")
+  | _ =>
+  match st.app with
+  | none => (st, "bad-op")
+  | some a =>
+    match ws with
+    | "w" :: tid :: file :: size :: iov =>
+      match tid.toNat?, file.toNat?, size.toNat?, iov.mapM parsePair with
+      | some tid, some file, some size, some iov =>
+        match App.step a (.reserve tid file size iov) with
+        | some a1 =>
+          match App.step a1 (.publish (a1.queue.length - 1)) with
+          | some a2 => ({ st with app := some a2 }, "ok")
+          | none => (st, "REJECT")
+        | none => (st, "REJECT")
+      | _, _, _, _ => (st, "bad-op")
+    | ["close"] =>
+      match App.step a .close with
+      | some a1 =>
+        match App.step a1 (.publish (a1.queue.length - 1)) with
+        | some a2 => ({ st with app := some a2 }, "ok")
+        | none => (st, "REJECT")
+      | none => (st, "REJECT")
+    | "round" :: n1 :: n2 :: fds =>
+      match n1.toNat?, n2.toNat?, fds.mapM String.toNat? with
+      | some n1, some n2, some fds =>
+        match App.step a (.round n1 n2 fds) with
+        | some a1 =>
+          let fl := a1.out.drop a.out.length
+          ({ st with app := some a1 },
+            s!"exited={if a1.exited then 1 else 0} flushes={fl.length}" ++
+              String.join (fl.map (fun x => " | " ++ showFlush x)))
+        | none => (st, "REJECT")
+      | _, _, _ => (st, "bad-op")
+    | ["end"] =>
+      (st, s!"exited={if a.exited then 1 else 0} queue={a.queue.length} processed={a.processed.length} freed={a.freed.length}")
+    | _ => (st, "bad-op")
+
 def step (st : St) (line : String) : St × String :=
   match words line with
+  | "app" :: ws => appStep st ws
   | ["reset"] => ({}, "ok")
   | ["ps", n] =>
     match n.toNat? with
